@@ -184,6 +184,9 @@ def cases(thorough):
         if which == "mi":
             for p in grid(N=[2, 3], T=[1, 3, 6], bins=[1, 2, 7]):
                 out.append(["sur_test", dict(p, which=which)])
+        for p in grid(N=[2, 4], T_first=[3, 40], T=[41, 300, 2000],
+                      bins=[4, 7]):
+            out.append(["sur_test", dict(p, which=which)])
     for p in grid(N=[1, 2, 3], T=[1, 2, 3, 4, 5, 8, 9], dim=[1, 2, 3],
                   tau=[1, 2, 4], md=[0, 1, 9]):
         out.append(["sur_gen", p])
